@@ -609,7 +609,8 @@ def run(ctx, res):
                          "raises %s (a negated leaf as a direct member of the And); the tree is still equivalent"
                          % (len(jfail), w, sexp(to_wire(f)), nv, e))
 
-    if mism and not failing:
+    if mism:
+        # (run.py prints a broken tie only when no unlisted concrete failing input explains it)
         m = mism[0]
         res.violations.append(Violation(
             "corr:logic", "model Logic/*.v and real logic.py disagree on %d cases, e.g. %s %s fresh=%s real=%s model=%s" % (
@@ -617,8 +618,6 @@ def run(ctx, res):
                 repr(m[3])[:200], repr(m[4])[:200]),
             {"layer": "logic", "theorems": ["C11_tseitin", "C11_naive", "C11_switching"], "first_mismatch": repr(m)[:1000]},
             failing_input=False))
-    elif mism:
-        res.notes.append("correspondence also broken on %d cases, e.g. %s" % (len(mism), repr(mism[0])[:300]))
 
 
 def to_json(f):
